@@ -266,6 +266,18 @@ func (e *emitter) builtinMisuse(n int) {
 	} {
 		e.add("builtin-misuse", s)
 	}
+	// short ranges whose next element would pass the int64 bounds (O31: the loop wrapped around and never ended)
+	for _, s := range []string{
+		"x := range(9223372036854775800, 9223372036854775807, 5)\nn := len(x)\n",
+		"x := range(9223372036854775806, 9223372036854775807)\nn := len(x)\n",
+		"x := range(-9223372036854775800, -9223372036854775807 - 1, 5)\nn := len(x)\n",
+		"x := range(9223372036854775807, 9223372036854775800, 3)\nn := len(x)\n",
+		"x := range(0, 9223372036854775807, 4611686018427387904)\nn := len(x)\n",
+		"x := range(-9223372036854775807 - 1, 9223372036854775807, 9223372036854775807)\nn := len(x)\n",
+		"x := range(9223372036854775807, -9223372036854775807 - 1, 9223372036854775807)\nn := len(x)\n",
+	} {
+		e.add("range-near-int64-bounds", s, label("ok"))
+	}
 	e.add("host-panic", "x := hostpanicval()\n", label("panic"))
 	e.add("host-panic", "x := hostpanicstr()\n", label("panic"))
 	e.add("host-panic", "x := hostpanicerr()\n", label("panic"))
